@@ -11,10 +11,11 @@ EXTENDS Integers, Sequences, FiniteSets, TLC, Json
 
 CONSTANTS MaxMsgs, Mode          \* Mode \in {"recipient", "identity"}
 
-RecipMsgs == {"rs_ok", "rs_ok2", "rs_idx1", "rs_neg", "rs_nan", "rs_short", "labels0", "labels_ab", "labels_ba"}
+\* ("rs_long", "unknown_long": well-formed commands whose first line is longer than any line buffer)
+RecipMsgs == {"rs_ok", "rs_ok2", "rs_long", "rs_idx1", "rs_neg", "rs_nan", "rs_short", "labels0", "labels_ab", "labels_ba"}
 IdentMsgs == {"fk_ok", "fk_idx1", "fk_neg", "fk_nan", "fk_args0", "fk_args2"}
 Common == {"error", "done", "msg", "req_secret", "req_public", "confirm1", "confirm2", "confirm0", "confirm3", "confirm_bad64",
-           "unknown", "garbage", "trunc", "eof"}
+           "unknown", "unknown_long", "garbage", "trunc", "eof"}
 Alphabet == Common \cup (IF Mode = "recipient" THEN RecipMsgs ELSE IdentMsgs)
 \* which callbacks the application provides, and how they behave
 UIs == [disp : {"nil", "err", "ok"}, req : {"nil", "err", "ok"}, conf : {"nil", "err", "yes", "no"}]
@@ -35,7 +36,7 @@ Uses(m) == IF m = "msg" THEN {"disp"} ELSE IF m \in {"req_secret", "req_public"}
 Recv(m) ==
   /\ result = "running" /\ Len(script) < MaxMsgs
   /\ script' = Append(script, m) /\ used' = used \cup Uses(m) /\ UNCHANGED ui
-  /\ CASE m \in {"rs_ok", "rs_ok2"} -> /\ stanzas' = stanzas + 1 /\ Reply("ok") /\ UNCHANGED <<labels, fk, result>>
+  /\ CASE m \in {"rs_ok", "rs_ok2", "rs_long"} -> /\ stanzas' = stanzas + 1 /\ Reply("ok") /\ UNCHANGED <<labels, fk, result>>
        \* only file index 0 is accepted; too few arguments, a non-numeric or another index end the call with an error
        [] m \in {"rs_idx1", "rs_neg", "rs_nan", "rs_short", "fk_idx1", "fk_neg", "fk_nan", "fk_args0", "fk_args2", "confirm0", "confirm3"} -> Abort("err_malformed")
        [] m \in {"labels0", "labels_ab", "labels_ba"} ->
@@ -55,7 +56,7 @@ Recv(m) ==
        \* a confirm whose option is not valid base64: without a Confirm callback the client answers fail before looking at it
        [] m = "confirm_bad64" -> IF ui.conf = "nil" THEN Reply("fail") /\ Keep ELSE Abort("err_malformed")
        \* unknown commands are answered "unsupported" and otherwise ignored
-       [] m = "unknown" -> Reply("unsupported") /\ Keep
+       [] m \in {"unknown", "unknown_long"} -> Reply("unsupported") /\ Keep
        \* a plugin that stops, or sends something that is not a stanza, is an error, not a hang
        [] m \in {"garbage", "trunc", "eof"} -> Abort("err_io")
 \* the plugin closes its end without "done"
@@ -83,7 +84,7 @@ OpeningShape == \A k \in {"recipient", "recipient-from-identity", "identity"} : 
 ASSUME OpeningShape
 
 \* ---------------------------------------------------------------- C16 as invariants
-OnlyIndexZero == (result = "ok" /\ Mode = "recipient") => stanzas = Cardinality({i \in 1..Len(script) : script[i] \in {"rs_ok", "rs_ok2"}})
+OnlyIndexZero == (result = "ok" /\ Mode = "recipient") => stanzas = Cardinality({i \in 1..Len(script) : script[i] \in {"rs_ok", "rs_ok2", "rs_long"}})
 NoDuplicateKeyOrLabels == (result \in {"ok", "incorrect", "err_zero"}) =>
       /\ Cardinality({i \in 1..Len(script) : script[i] = "fk_ok"}) <= 1
       /\ Cardinality({i \in 1..Len(script) : script[i] \in {"labels0", "labels_ab", "labels_ba"}}) <= 1
